@@ -345,28 +345,55 @@ wait:
 		}
 	}
 	final := map[string]string{}
+	finalFlushed := map[string]string{}
+	finalReopened := map[string]string{}
 	if len(stuck) == 0 && !closing {
 		seen := map[string]bool{}
+		var keys [][]byte
 		all := append([]opT{}, setup...)
 		for _, t := range threads {
 			all = append(all, t.Op)
 		}
 		for _, o := range all {
-			if o.Key == nil || seen[string(o.Key)] {
-				continue
-			}
-			seen[string(o.Key)] = true
-			v, f, e := s.Get(o.Key)
-			switch {
-			case e != nil:
-				final[hex.EncodeToString(o.Key)] = "ERR:" + e.Error()
-			case !f:
-				final[hex.EncodeToString(o.Key)] = "absent"
-			default:
-				final[hex.EncodeToString(o.Key)] = "val:" + hex.EncodeToString(v)
+			if o.Key != nil && !seen[string(o.Key)] {
+				seen[string(o.Key)] = true
+				keys = append(keys, o.Key)
 			}
 		}
-		s.Close()
+		readAll := func(st *store.Store, into map[string]string) {
+			for _, k := range keys {
+				v, f, e := st.Get(k)
+				switch {
+				case e != nil:
+					into[hex.EncodeToString(k)] = "ERR:" + e.Error()
+				case !f:
+					into[hex.EncodeToString(k)] = "absent"
+				default:
+					into[hex.EncodeToString(k)] = "val:" + hex.EncodeToString(v)
+				}
+			}
+		}
+		readAll(s, final)
+		// the same contents must survive two flushes (data leaves both write pools) and a reopen by rescan
+		if rate > 0 {
+			s.VerifSetFlushRate(1e18)
+		}
+		s.Flush()
+		s.Put([]byte{0x12, 6, 9, 9, 9, 0xfe, 0xfe, 0xfe}, []byte("x"))
+		s.Flush()
+		readAll(s, finalFlushed)
+		if err := s.Close(); err != nil {
+			finalReopened["close"] = "ERR:" + err.Error()
+		} else {
+			os.Remove(filepath.Join(dir, "i.buckets"))
+			s2, err := store.OpenStore(context.Background(), store.MultihashPrimary, filepath.Join(dir, "d"), filepath.Join(dir, "i"), cfg["imm"] == "1", opts...)
+			if err != nil {
+				finalReopened["open"] = "ERR:" + err.Error()
+			} else {
+				readAll(s2, finalReopened)
+				s2.Close()
+			}
+		}
 	}
 	type tout struct {
 		Name   string `json:"name"`
@@ -385,7 +412,7 @@ wait:
 		outs = append(outs, tout{t.Name, t.Op.Kind, hex.EncodeToString(t.Op.Key), hex.EncodeToString(t.Op.Val), t.Status, t.Res, t.Found, t.Out, t.Start, t.End})
 	}
 	var sb bytes.Buffer
-	json.NewEncoder(&sb).Encode(map[string]interface{}{"threads": outs, "stuck": stuck, "events": log, "final": final, "flushes_in_free_run": nflush})
+	json.NewEncoder(&sb).Encode(map[string]interface{}{"threads": outs, "stuck": stuck, "events": log, "final": final, "final_flushed": finalFlushed, "final_reopened": finalReopened, "flushes_in_free_run": nflush})
 	os.Stdout.Write(sb.Bytes())
 	if len(stuck) > 0 {
 		os.Exit(3) // leave the blocked goroutines behind
